@@ -17,6 +17,7 @@ def check(ctx, rep):
     no_valid_ranges(rep, prog)
     kind_survives(rep, prog)
     accessors(rep, prog)
+    location_table(ctx, rep, prog)
 
 
 def entry_rules(rep, prog, partial):
@@ -293,3 +294,41 @@ def accessors(rep, prog):
                 rep.fail("E5-accessors", "%s|E5|label span" % key, "labels() returns %r" % (r,))
         except Inconclusive as e:
             rep.inconc("E5 labels: %s" % e.reason, e.where)
+
+
+def location_table(ctx, rep, prog):
+    """E4: location() = (newlines before the offset, bytes since the last newline) on every text of the geometry
+    abstraction (five character classes, bounded length) and every character-boundary offset; never panics there"""
+    from .. import location
+    rule = "E4-location"
+    maxlen = 5 if ctx.thorough else 4
+    rep.rule(rule, 3000, "location() is the 0-based (line, column) of the offset: texts over {newline, CR, blank, 1-byte, 2-byte "
+                         "character} up to length %d x every char-boundary offset" % maxlen)
+    if not prog.has_body("SemverError::location"):
+        rep.fail(rule, "SemverError::location|E4|missing", "location() not found")
+        return
+    rows = location.table(prog, maxlen)
+    for r in rows:
+        rep.path((rule, r["sig"]))
+        cls = "text=%s offset=%d" % (r["word"] or "(empty)", r["offset"])
+        if r["status"] == "inconclusive":
+            rep.inconc("%s: %s" % (rule, r["error"][0]), r["error"][1])
+            continue
+        if r["status"] == "panic":
+            rep.fail(rule, "SemverError::location|E4|panic %s" % _shape(r["word"], r["offset"]),
+                     "location() panics for a valid offset (%s): %s" % (cls, r["error"]))
+            continue
+        got = r["result"]
+        if isinstance(got, tuple) and tuple(got) == r["expected"]:
+            rep.ok(rule)
+        else:
+            rep.fail(rule, "SemverError::location|E4|%s" % _shape(r["word"], r["offset"]),
+                     "location() = %r, expected (line, column) = %r for %s" % (got, r["expected"], cls))
+    rep.sample({"rule": rule, "cases": len(rows), "example": "text 'a\\n é' offset 3 -> (1, 1)"})
+    rep.analysed_item("SemverError::location interpreted on %d (text, offset) classes" % len(rows))
+
+
+def _shape(word, off):
+    """stable, coarse class for violation keys: is there a newline before the offset, a CR, trailing blanks, multibyte"""
+    return "newline-before=%s cr=%s multibyte=%s blank-tail=%s" % (
+        "N" in word[:off] if True else "", "R" in word, "M" in word, word.endswith("S") or word.endswith("R"))
